@@ -2607,6 +2607,14 @@ func (pid *PID) tryPassivation(reason string) bool {
 	pid.stopLocker.Lock()
 	defer pid.stopLocker.Unlock()
 
+	// a Shutdown may have won the lock since the unlocked tests above and
+	// stopped this incarnation already: stopping it again would run PostStop
+	// a second time
+	if !pid.isStateSet(runningState) {
+		pid.logger.Debugf("passivation decision aborted for %s: already stopped", pid.Name())
+		return false
+	}
+
 	if pid.compareAndSwapState(passivationSkipNextState, true, false) {
 		pid.logger.Debugf("passivation decision aborted for %s due to reinstate observed during critical section", pid.Name())
 		return false
